@@ -193,7 +193,7 @@ func body(c *hk.Ctx) {
 	sc.Leaves = len(leaves)
 	workflow.LinkChildrenToParents(root.role)
 
-	envId := uid.New()
+	envId := uid.ID("2rE9AV3m1HL") // a fixed id: the process-wide generator keeps state across runs
 	var notifMu simsync.Mutex
 	stateCh := make(chan sm.State, 100000)
 	statusCh := make(chan task.Status, 100000)
